@@ -229,7 +229,12 @@ def decide(pid: str, tier: str, seed: int) -> int:
     suites = {}
     if ok:
         for s in spec["suites"]:
-            suites[s] = run_suite(s, tier, seed, th)
+            try:
+                suites[s] = run_suite(s, tier, seed, th)
+            except Exception:
+                import traceback
+
+                broken.append(f"correspondence suite `{s}` could not be evaluated: {traceback.format_exc()[-1500:]}")
 
     # correspondence
     corr_broken = []
